@@ -1252,9 +1252,17 @@ class QueryBuilder(Selectable, Term):
 
         table_in_query = any(isinstance(clause, Table) and join.item in base_tables for clause in base_tables)
         if isinstance(join.item, Table) and join.item.alias is None and table_in_query:
-            # On the odd chance that we join the same table as the FROM table and don't set an alias
-            # FIXME only works once
-            join.item.alias = join.item._table_name + "2"
+            # On the odd chance that we join the same table as the FROM table and don't set an alias:
+            # the first numbered name that no other source of this query carries
+            taken = {
+                getattr(clause, "alias", None) or getattr(clause, "_table_name", None)
+                for clause in base_tables + [j.item for j in self._joins]
+                if isinstance(clause, (Table, QueryBuilder, AliasedQuery, _SetOperation))
+            }
+            number = 2
+            while "%s%d" % (join.item._table_name, number) in taken:
+                number += 1
+            join.item.alias = "%s%d" % (join.item._table_name, number)
 
         self._joins.append(join)
 
